@@ -64,7 +64,7 @@ func hasMultiMemberObj(v interface{}) bool {
 
 // ---- path programs --------------------------------------------------------------
 
-var c01Steps = []string{"a", "b", "`a`", "*", "**", "$", "$$", "$v", "(a)", "(a.b)", "[a]", "[a, b]", `{"k": a}`, "$count(a)", "$string($)", "a[0]", "b[]"}
+var c01Steps = []string{"a", "b", "`a`", "*", "**", "$", "$$", "$v", "(a)", "(a.b)", "(a.[b])", "([a].b)", "(b.[a, b])", "([a, b].a)", "(a.{\"k\": b})", "(a.*)", "(**.b)", "(a.b.[a])", "[a]", "[a, b]", `{"k": a}`, "$count(a)", "$string($)", "a[0]", "b[]"}
 
 func orderSensitive(prog string) bool {
 	return strings.Contains(prog, "*") || strings.Contains(prog, "$keys") || strings.Contains(prog, "$each") ||
@@ -78,6 +78,18 @@ func genPath(r *rng, maxSteps int) string {
 		steps[i] = c01Steps[r.intn(len(c01Steps))]
 		if i > 0 && (steps[i] == "$" || steps[i] == "$$" || steps[i] == "$v") && r.chance(2, 3) {
 			steps[i] = []string{"a", "b", "*"}[r.intn(3)]
+		}
+	}
+	if n >= 2 && r.chance(1, 4) {
+		// a contiguous range of steps as one parenthesised sub-path (its array value is flattened one level by
+		// the outer path, its first step keeps its constructor anchoring)
+		i := r.intn(n - 1)
+		j := i + 2 + r.intn(n-i-1)
+		if !(i == 0 && j == n) {
+			grouped := append([]string{}, steps[:i]...)
+			grouped = append(grouped, "("+strings.Join(steps[i:j], ".")+")")
+			grouped = append(grouped, steps[j:]...)
+			steps = grouped
 		}
 	}
 	p := strings.Join(steps, ".")
@@ -152,6 +164,37 @@ func runC01(c *ctx) {
 		}
 		if c.tooMany() {
 			return
+		}
+	}
+
+	// 1c. parenthesised sub-paths: a sub-path is ONE step (its array value is flattened one level by the outer path and a
+	//     leading constructor keeps its first-step anchoring) — exhaustive over sub-path shapes x positions x documents
+	//     with several context items
+	c.rep.Exhaustive = append(c.rep.Exhaustive, "parenthesised sub-paths (7 shapes incl. leading/trailing constructor steps) x 9 positions x documents with 1..3 context items")
+	mk := func(vals ...interface{}) []interface{} {
+		var out []interface{}
+		for _, v := range vals {
+			out = append(out, map[string]interface{}{"a": v})
+		}
+		return out
+	}
+	ob := func(v interface{}) map[string]interface{} { return map[string]interface{}{"b": v} }
+	subDocs := []interface{}{
+		map[string]interface{}{"a": mk(ob(1.0), ob(2.0))},
+		map[string]interface{}{"a": map[string]interface{}{"a": []interface{}{ob([]interface{}{1.0, 2.0}), ob([]interface{}{3.0})}}},
+		map[string]interface{}{"a": mk([]interface{}{ob(1.0), ob(2.0)}, ob(3.0))},
+		map[string]interface{}{"a": mk(ob([]interface{}{1.0}), ob([]interface{}{2.0, 3.0}), ob(4.0))},
+		map[string]interface{}{"a": ob([]interface{}{[]interface{}{1.0}, []interface{}{2.0}})},
+		map[string]interface{}{"a": []interface{}{mk(ob(1.0)), mk(ob(2.0), ob(3.0))}},
+		mk(ob(1.0), ob(2.0)),
+		map[string]interface{}{"a": mk(ob(1.0))},
+		map[string]interface{}{"a": map[string]interface{}{"a": ob(1.0)}, "b": 2.0},
+	}
+	for _, sub := range []string{"a.[b]", "[a].b", "a.[a, b]", "[a, b].b", "a.b", "[b]", "a.{\"k\": b}", "a.b.[$]", "[a].[b]"} {
+		for _, outer := range []string{"a.(%s)", "(%s).b", "(%s)", "a.(%s).b", "$.(%s)", "(a.(%s))", "a.(%s)[]", "a.((%s))", "(%s).a.b"} {
+			for _, d := range subDocs {
+				c.diffEval(fmt.Sprintf(outer, sub), d, "sub-path")
+			}
 		}
 	}
 
